@@ -194,8 +194,9 @@ def run(ctx):
         conc_phase(ctx, "impl-t3", exe, [scen([("owner", "reset1"), ("weak", "lock"), ("weak", "lock")]),
                                          scen([("owner", "reset1"), ("weak", "lock"), ("weak", "wreset")])], props)
         # two operations per thread: model (every pair over five operations) and the real code (selected pairs)
-        l0_conc(ctx, "t2p2", 2, ["owner", "weak", "both"], ["reset1", "share", "lock", "wfrom"], plen=2)
-        conc_phase(ctx, "impl-t2p2", exe, two_op_scenarios(True), props)
+        # (quick: three operations in the model, a budget of schedules per scenario on the real code; thorough: all)
+        l0_conc(ctx, "t2p2", 2, ["owner", "weak", "both"], ["reset1", "share", "lock"], plen=2, live=False)
+        conc_phase(ctx, "impl-t2p2", exe, two_op_scenarios(True), props, maxruns=600)
         # larger scenarios: randomly sampled schedules (no pruning)
         conc_phase(ctx, "rand-t4", exe, FOUR, props, maxruns=-2500)
     else:
